@@ -14,6 +14,7 @@ AT a knot (`miscount_witness`: one knot strictly below the query left out change
 
 The loading at the query is an input of the fold (the code reads it through `loading_at`, the data points through `loading`):
 `foreign_lq_witness` — with the number another conversion produces the fold is not the integral of the interpolant (finding S49-C11c).
+`unsigned_wrap_witness` — the fold needs field arithmetic: with one loading difference wrapped as in `UInt8` the value changes (finding S62-C11a).
 -/
 import Mathlib.Analysis.SpecialFunctions.Log.Basic
 import Mathlib.Algebra.Order.Field.Rat
@@ -190,6 +191,19 @@ theorem foreign_lq_witness :
     spreadPoint (α := ℚ) [1, 2, 4] [1, 3, 4] [7/10, 7/10] 3 (7/200) (2/5) = some (2907/1000) ∧
     (18/5 : ℚ) ≠ 2907/1000 := by
   refine ⟨?_, ?_, by norm_num⟩ <;>
+  norm_num [spreadPoint, nBelow, spreadBody, seg, List.range_succ, List.filter]
+
+/-- finding S62-C11a: the fold is a statement about FIELD arithmetic (`spreadPoint_eq_integral` is proved over ℝ, the driver runs at ℚ); the code computes
+`loadings[i + 1] - loadings[i]` in the storage type of the loading column, and numpy's unsigned integers are not a field: `4 - 5 = 255` in `UInt8`.
+Witness of the finding — pressures `1, 2, 3, 5`, loadings `3, 5, 4, 8`, query `4` (`loading_at 4 = 6`), logarithms replaced by the rationals
+`7/10 ≈ ln 2`, `2/5 ≈ ln(3/2)`, `3/10 ≈ ln(4/3)`: the fold is `89/10` (≈ 8.956 with real logarithms); with the difference of the completed segment
+`(2,5) → (3,4)` wrapped to `255` (the chord to `(3, 5 + 255)`) it is `601/10` (≈ 57.36, what the code returns for `uint8` columns). -/
+theorem unsigned_wrap_witness :
+    ((4 : UInt8) - 5).toNat = 255 ∧
+    spreadPoint (α := ℚ) [1, 2, 3, 5] [3, 5, 4, 8] [7/10, 2/5, 1/2] 4 6 (3/10) = some (89/10) ∧
+    (3 : ℚ) + seg (1 : ℚ) 3 2 5 (7/10) + seg (2 : ℚ) 5 3 (5 + 255) (2/5) + seg (3 : ℚ) 4 4 6 (3/10) = 601/10 ∧
+    (89/10 : ℚ) ≠ 601/10 := by
+  refine ⟨by decide, ?_, by norm_num [seg], by norm_num⟩
   norm_num [spreadPoint, nBelow, spreadBody, seg, List.range_succ, List.filter]
 
 /-- a count "up to an absolute tolerance" (`p_k < p - tol` instead of `p_k < p`) -/
